@@ -725,7 +725,9 @@ class Grammar(Model):
         # noinspection PyUnresolvedReferences
         for name, value in self.directives.items():
             if name in regex_directives:
-                if '/' in value:
+                if not value:
+                    directives += f'@@{name} :: None\n'
+                elif '/' in value:
                     directives += f'@@{name} :: ?"{value}"\n'
                 else:
                     directives += f'@@{name} :: /{value}/\n'
